@@ -29,6 +29,19 @@ PROPS = {
                      "history theorem covers the 16 request kinds of C02.NavOp (+ indexed look-ups with the documented argument); token navigation and the offset/range queries are compositions of these and are tied by correspondence, their invariance proof is listed under not_yet_proved"],
         not_yet_proved=["keeps-lemmas for first_token/last_token/next_token/prev_token, token_at_offset, covering_element (compositions of proven primitive requests)"],
     ),
+    "C03": dict(
+        runs=runs([("red", "release")],
+                  [("red", "release"), ("red", "debug"), ("red", "lasso")]),
+        tags=["C03"],
+        rule="same runs as C02: every tree with <= 4 (thorough 5) elements: every navigation operation (25 node operations, 11 token operations) from every "
+             "element, child iterators driven with len/size_hint/next/count mixes and their reports compared with the items actually yielded, 13 first-visit "
+             "routes; random programs on larger trees; plain and resolved API alternately; every returned element is checked against an arena reference "
+             "(kind, node/token, span) and handle identity is checked to be a bijection with tree positions; non-trivial = the case returned at least one "
+             "element; distinct = distinct op text",
+        assumptions=["the resolved wrappers are re-typings (repr(transparent)); they are the same function in the model and are tied by running every operation through both APIs"],
+        not_yet_proved=["simulation lemma walkNextT/walkNextN (state-threading) = C03.next (pure successor), which lifts preorder_spec to the modelled iterator",
+                        "closed forms for last_child / next_sibling / prev_sibling (node-only) and for first_token/last_token/next_token/prev_token (tokens_spec)"],
+    ),
     "C04": dict(
         runs=runs([("history", "release")],
                   [("history", "release"), ("history", "lasso"), ("build", "release")]),
